@@ -191,6 +191,10 @@ def run(ctx):
         cases.append(D.gen_case(ctx.rng, "r%d" % i, twins=(i % 8 == 7)))
     for i in range(16 if quick else 400):
         cases.append(D.gen_vm_case(ctx.rng, "vm%d" % i))
+    # the block-generation deadline at every position of the candidate list
+    cases += D.deadline_family(ctx.rng, "dl-fixed", ver=3, public=True)
+    for i in range(1 if quick else 40):
+        cases += D.deadline_family(ctx.rng, "dl%d" % i)
     procs_p = [1, 16, 1] if quick else [1, 16, 1, 16, 4]
     procs_v = [16, 1]
     prods = run_mode(ctx, binp, "produce", [D.strip(c) for c in cases], "produce", procs_p)
